@@ -182,6 +182,15 @@ class Interp:
         return '?'
 
     def decide(self, c):
+        if isinstance(c, UnknownBool):
+            idx = len(self.sym.taken)
+            if idx < len(self.prefix):
+                choice = self.prefix[idx]
+            else:
+                choice = True
+                self.pending.append(self.sym.taken + [False])
+            self.sym.taken.append(choice)
+            return choice
         if not is_sym(c):
             return truthy(c)
         c = z3.simplify(c)
@@ -271,6 +280,8 @@ class Interp:
     def m_sqrt(self, x):
         if isinstance(x, Mat):
             return x.map(self.m_sqrt)
+        if isinstance(x, Dim):
+            return Dim(None if x.d is None else x.d / 2)
         if self.mode == 'float':
             x = float(x)
             if not x >= 0 and x == x:
@@ -294,6 +305,14 @@ class Interp:
 
     def m_complex(self, name, z):
         """complex sqrt/log: exact in float mode (cmath, principal branch), uninterpreted pair of functions in sym mode"""
+        if isinstance(z.re, Dim) or isinstance(z.im, Dim):
+            d = z.re if isinstance(z.re, Dim) else z.im
+            if name == 'sqrt':
+                h = Dim(None if d.d is None else d.d / 2)
+                return Cx(h, h)
+            if d.d not in (None, 0):
+                raise DimError('complex log of a quantity with mass dimension %s' % d.d)
+            return Cx(Dim(0), Dim(0))
         if self.mode == 'float':
             import cmath
             w = getattr(cmath, name)(complex(z.re, z.im))
@@ -304,6 +323,10 @@ class Interp:
     def m_abs(self, x):
         if isinstance(x, Mat):
             return x.map(self.m_abs, cplx=False)
+        if isinstance(x, Dim):
+            return x
+        if isinstance(x, Cx) and (isinstance(x.re, Dim) or isinstance(x.im, Dim)):
+            return add(x.re, x.im) if not (isinstance(x.im, (int, float, Fraction)) and x.im == 0) else x.re
         if isinstance(x, Cx):
             if self.mode == 'float':
                 return math.hypot(x.re, x.im)
@@ -314,6 +337,10 @@ class Interp:
         return abs(x)
 
     def m_unary_uf(self, name, pyf, x, domain=None):
+        if isinstance(x, Dim):
+            if x.d not in (None, 0):
+                raise DimError('%s of a quantity with mass dimension %s at %s:%d' % (name, x.d, self.cur_file(), self.cur_line))
+            return Dim(0)
         if self.mode == 'float':
             try:
                 return pyf(float(x))
@@ -374,6 +401,14 @@ class Interp:
         self.axiom(z3.And(self.uf('sin', t) == sa * cb + ca * sb, self.uf('cos', t) == ca * cb - sa * sb), ('add', t.get_id()))
 
     def m_pow(self, x, y):
+        if isinstance(x, Dim):
+            if isinstance(y, Dim):
+                raise DimError('power with a dimensioned exponent')
+            return Dim(None if x.d is None else x.d * Fraction(y))
+        if isinstance(y, Dim):
+            if y.d not in (None, 0):
+                raise DimError('dimensionful exponent')
+            return Dim(0)
         if self.mode == 'float':
             try:
                 return math.pow(float(x), float(y))
@@ -488,7 +523,7 @@ class Interp:
             if n.startswith('Eigen::'):
                 return -5
             return -1 if n in self.w.classes else 0
-        if isinstance(v, (float, Fraction)) or is_sym(v):
+        if isinstance(v, (float, Fraction, Dim)) or is_sym(v):
             if n == 'double':
                 return 3
             if n in ('int', 'unsigned'):
@@ -1888,6 +1923,8 @@ class Interp:
         if name == 'cwiseSqrt' or name == 'sqrt':
             return m.map(self.m_sqrt)
         if name in ('log', 'exp'):
+            if any(isinstance(x, Dim) for x in m.elems()):
+                return m.map(lambda x: self.m_unary_uf('ln' if name == 'log' else 'exp', None, x))
             if self.mode == 'float':
                 f = (lambda x: (math.log(x) if x > 0 else (-math.inf if x == 0 else math.nan))) if name == 'log' else math.exp
                 return m.map(lambda x: f(float(x)))
@@ -2077,6 +2114,8 @@ class Interp:
             a = A()
             if isinstance(a[0], Cx):
                 return self.m_complex('log', a[0])
+            if isinstance(a[0], Dim):
+                return self.m_unary_uf('ln', None, a[0])
             if self.mode == 'float':
                 x = float(a[0])
                 return math.log(x) if x > 0 else (-math.inf if x == 0 else math.nan)
@@ -2085,6 +2124,8 @@ class Interp:
             return self.m_unary_uf('ln', math.log, a[0], domain=lambda t: t > 0)
         if s in ('std::log1p',):
             a = A()
+            if isinstance(a[0], Dim):
+                return self.m_unary_uf('ln', None, a[0])
             if self.mode == 'float':
                 x = float(a[0])
                 return math.log1p(x) if x > -1 else (-math.inf if x == -1 else math.nan)
@@ -2155,6 +2196,8 @@ class Interp:
         if s in ('std::isfinite', 'std::isnan', 'std::isinf', 'isfinite', 'isnan', 'isinf'):
             a = A()
             nm = s.split('::')[-1]
+            if isinstance(a[0], Dim):
+                return nm == 'isfinite'
             if self.mode == 'float':
                 x = a[0]
                 return {'isfinite': math.isfinite, 'isnan': math.isnan, 'isinf': math.isinf}[nm](float(x))
